@@ -186,12 +186,15 @@ def generate() -> str:
     L.append("theorem element_preserved : table.elementPreserved = true := by decide +kernel")
     L.append("theorem second_cycle_fixed : table.secondCycleFixed = true := by decide +kernel")
     L.append("theorem set_model_agrees : table.setModelAgrees = true := by decide +kernel")
+    L.append("/-- `Element.get(e.symbol) = e` for every element (the xyz reader looks symbols up this way) -/")
+    L.append("theorem symbol_roundtrip : table.symbolRoundtrip = true := by decide +kernel")
     if witness is not None:
         ei, ti, gi, t0, t1 = witness
         L.append(f"/-- the FIRST cycle may normalise the token: ({E[ei].name}, {T[ti].name}, {G[gi].name}) writes "
                  f"`{t0}`, which reads back as a state that writes `{t1}` ({n_changed} of the "
                  f"{len(o['emit'])} states change once). Recorded, not a finding: the property claims the second cycle. -/")
-        L.append(f"theorem first_cycle_not_fixed_counterexample : table.firstCycleChanges ⟨{ei}, {ti}, {gi}⟩ = true := by decide +kernel")
+        L.append(f"def cycleWitness : St := ⟨{ei}, {ti}, {gi}⟩")
+        L.append("theorem first_cycle_not_fixed_counterexample : table.firstCycleChanges cycleWitness = true := by decide +kernel")
     L.append("theorem bond_token_accepted : bonds.tokenAccepted = true := by decide +kernel")
     L.append("theorem expressible_bond_type_preserved : bonds.expressiblePreserved = true := by decide +kernel")
     L.append("theorem bond_second_cycle_fixed : bonds.bondCycleFixed = true := by decide +kernel")
